@@ -297,6 +297,11 @@ func (p *ProtocolCartesian[X0, X1, W0, W1, A0, A1, S0, S1, Z0, Z1]) Verify(state
 		return ErrInvalidLength.WithMessage("invalid challenge bytes length")
 	}
 
+	if len(response.E0) != p.challengeBytesLength || len(response.E1) != p.challengeBytesLength {
+		// as the n-ary composition does: surplus bytes would be ignored (malleable proof), missing ones panic below
+		return ErrInvalidLength.WithMessage("invalid branch challenge length")
+	}
+
 	e0XorE1 := make([]byte, p.challengeBytesLength)
 	subtle.XORBytes(e0XorE1, response.E0, response.E1)
 	if ct.SliceEqual(challengeBytes, e0XorE1) == ct.False {
